@@ -183,6 +183,25 @@ func GenC07(seed uint64) *Scenario {
 			s.Rates[kinds[r.Intn(len(kinds))]] = []int{5, 15, 30}[r.Intn(3)]
 		}
 	}
+	// Files left by a run with another segment size (a re-configured deployment over the same store): same module
+	// hashes, same directories, ranges that share a start block (the module's initial block, common multiples) but not
+	// the end. Drawn from its own stream so that every other choice of the scenario stays what it was.
+	if r2 := NewRng(seed, "gen", "C07seg"); r2.Chance(1, 8) && na >= 1 {
+		j := 0 // the first request: nothing of the usual alignment exists yet when it runs
+		alt := []uint64{b.seg / 2, b.seg - 1, b.seg + 1, b.seg * 2, b.seg + b.seg/2}[r2.Intn(5)]
+		if alt < 2 {
+			alt = 2
+		}
+		if alt == b.seg {
+			alt = b.seg + 2
+		}
+		s.History[j].Req.SegSize = alt
+		// every .output file is evicted after that request: output files of another segment size make a later request
+		// for the same mapper wait forever (known finding KF3, reported from its committed replay), so they are kept
+		// out of the sampled scenarios; store snapshots and partials of the other alignment stay.
+		s.History[j].DropOutputs = true
+		s.Family += "_other_segment_size"
+	}
 	fixHead(s)
 	return s
 }
